@@ -67,6 +67,10 @@ def peaks_validate(chk, q, rng):
                 hh = (-np.inf if si % 2 else 0) if h == 0 else (h if si % 3 else float(h))
                 out = find_peaks(arr.copy(), d, hh)
                 cases.append({'sig': s, 'd': d, 'h': h, 'out': [int(x) for x in out]})
+                if si % 5 == 0:          # the same shape with negative values and a negative height: judged by TLC on its own values
+                    s2 = [3 * v - 4 for v in s]
+                    out2 = find_peaks(np.array(s2, dtype=dts[(si + 1) % 4]), d, 3 * h - 4 if si % 2 else float(3 * h - 4))
+                    cases.append({'sig': s2, 'd': d, 'h': 3 * h - 4, 'out': [int(x) for x in out2]})
     verdicts = {}
     CH = 60000
     for c0 in range(0, len(cases), CH):
@@ -130,6 +134,10 @@ def moving(chk, q):
     chk.add_tlc('MC+GEN:windowed moments', r)
     if r.violated:
         raise tlc.TLCError(f'SigEnum(win) violates {r.violated}')
+    rneg = tlc.run('SigEnum', cfg_text=tlc.cfg(constants={'Mode': 'win', 'MaxLen': 4 if q else 5, 'MinLen': 2, 'Gen': True, 'MaxPat': 1}, invariants=['MomentLemma', 'Emit']), defs={'Alphabet': '{-3, 0, 5}'}, workers=1)
+    chk.add_tlc('MC+GEN:windowed moments (values -3, 0, 5)', rneg)
+    if rneg.violated:
+        raise tlc.TLCError(f'SigEnum(win, negative values) violates {rneg.violated}')
     ops = {
         'moving_sum': (sp.moving_sum, lambda e, w: [x['sum'] for x in e[w - 1]]),
         'moving_mean': (sp.moving_mean, lambda e, w: [fr(x['mean']) for x in e[w - 1]]),
@@ -140,12 +148,13 @@ def moving(chk, q):
     }
     by_len = {}
     dts = ['uint8', 'int16', 'float32', 'float64', 'int64']
-    for i, e in enumerate(r.emits()):
+    for i, e in enumerate(r.emits() + rneg.emits()):
         s = e['sig']
-        by_len.setdefault(len(s), []).append((s, e['win']))
+        if min(s) >= 0:
+            by_len.setdefault(len(s), []).append((s, e['win']))
         for name, (fn, exp) in ops.items():
             for w in range(1, len(s) + 1):
-                arr = np.array(s, dtype=dts[(i + w) % len(dts)])
+                arr = np.array(s, dtype=dts[(i + w) % len(dts)] if min(s) >= 0 else ['int16', 'float64', 'int64', 'float32'][(i + w) % 4])
                 got = np.asarray(fn(arr, w))
                 want = exp(e['win'], w)
                 chk.count((name, tuple(s), w), nontrivial=w >= 2)
